@@ -441,7 +441,12 @@ impl World {
                         if k >= old.len() {
                             fresh.push((m.clone(), true));
                         } else if *m != old[k] {
-                            fresh.push((m.clone(), false));
+                            // batch_append edits queued messages; an empty append that now
+                            // carries entries counts as a newly generated entry-carrying append
+                            let became_carrying = m.get_msg_type() == MessageType::MsgAppend
+                                && old[k].entries.is_empty()
+                                && !m.entries.is_empty();
+                            fresh.push((m.clone(), became_carrying));
                         }
                     }
                 }
